@@ -31,12 +31,12 @@ WIRE_NOTE = "McWire enumerates every value of the star domains of spec/Domain.tl
 
 prop("C01", lambda t, s: [("mc", "Mc", n(t, "McFaults", "McFaults2")), ("mc", "Mc", "McFaultsDev"), ("drive", "fuzz", n(t, 1500, 40000)), ("drive", "bigdec", n(t, 0, 1)), ("drive", "amplify", 0)],
      exhaustive_note="McFaults enumerates every first-order fault of spec/Faults.tla on the tiny domain; every faulted buffer goes to all 16 packet decoders, 7 sub-decoders and the datagram decoder; McFaultsDev does the same from the encodings of the deviating model (SLI with PT 205, CCFB num_reports n-1), which are the ones the library's SLI and CCFB decoders accept")
-prop("C02", lambda t, s: [("mc", "Mc", "McWire"), ("mc", "Mc", "McWirePairs"), ("drive", "rt", n(t, 1500, 60000)), ("drive", "rtlist", n(t, 300, 10000)), ("drive", "bigframes", n(t, 0, 1)), ("drive", "recombine", n(t, 300, 10000))], exhaustive_note=WIRE_NOTE)
+prop("C02", lambda t, s: [("mc", "Mc", "McWire"), ("mc", "Mc", "McWirePairs"), ("mc", "Mc", "McReuse"), ("drive", "rt", n(t, 1500, 60000)), ("drive", "rtlist", n(t, 300, 10000)), ("drive", "bigframes", n(t, 0, 1)), ("drive", "recombine", n(t, 300, 10000))], exhaustive_note=WIRE_NOTE)
 prop("C03", lambda t, s: [("mc", "Mc", "McWire"), ("mc", "Mc", "McWirePairs"), ("mc", "Mc", "McVariants"), ("drive", "rt", n(t, 1500, 60000)), ("drive", "bigframes", n(t, 0, 1)), ("mc", "Mc", n(t, "McCompound", "McCompound4")), ("drive", "cprand", n(t, 200, 10000)), ("mc", "Mc", "McLoose"), ("drive", "errpaths", n(t, 200, 10000))], exhaustive_note=WIRE_NOTE)
 prop("C05", lambda t, s: [("mc", "Mc", "McWire"), ("mc", "Mc", "McWirePairs"), ("drive", "rt", n(t, 1500, 60000)), ("drive", "rtlist", n(t, 300, 10000)), ("drive", "bigframes", n(t, 0, 1)), ("drive", "cprand", n(t, 200, 10000)), ("mc", "Mc", "McLoose")], exhaustive_note=WIRE_NOTE)
 prop("C09", lambda t, s: [("mc", "Mc", n(t, "McFaults", "McFaults2")), ("mc", "Mc", "McFaultsDev"), ("drive", "fuzzdgram", n(t, 8000, 300000))],
      exhaustive_note="McFaults enumerates every first-order fault on the tiny domain and follows every accepted datagram through Marshal and a second decode")
-prop("C10", lambda t, s: [("mc", "Mc", "McWire"), ("mc", "Mc", "McWirePairs"), ("mc", "Mc", n(t, "McCompound", "McCompound4")), ("drive", "rt", n(t, 1500, 60000)), ("drive", "cprand", n(t, 300, 20000))],
+prop("C10", lambda t, s: [("mc", "Mc", "McWire"), ("mc", "Mc", "McWirePairs"), ("mc", "Mc", "McReuse"), ("mc", "Mc", n(t, "McCompound", "McCompound4")), ("drive", "rt", n(t, 1500, 60000)), ("drive", "cprand", n(t, 300, 20000))],
      exhaustive_note=WIRE_NOTE + "; McCompound gives every member sequence of up to 3 (thorough: 4) over 14 representative kinds to CompoundPacket.DestinationSSRC")
 
 DEFAULT_LEVEL = ("Bounded exhaustive model checking of the TLA+ specification (the property's invariants hold in every reachable state of the bounded "
@@ -65,7 +65,7 @@ prop("C12", lambda t, s: [("mc", "NackAlg", n(t, "McNack", "McNackThorough")), (
 prop("C13", lambda t, s: [("mc", "TwccAlg", n(t, "McTwcc", "McTwccThorough")), ("mc", "TwccAlg", "McTwcc3"), ("drive", "twccfuzz", n(t, 3000, 100000)), ("drive", "fuzz", n(t, 400, 10000)), ("drive", "amplify", 0)],
      exhaustive_note="McTwcc enumerates every status sequence of length 0..5 (thorough: 0..7) over {not received, small, large} in every chunking (run-length splits, 1-bit and 2-bit vectors, run-length overshoot 1 and 8191), plus two-run sequences with run lengths straddling 7 and 14 in six systematic chunkings; McTwcc3 does the same over four symbols (including the reserved symbol 3) up to length 4")
 
-prop("C14", lambda t, s: [("mc", "RembAlg", n(t, "McRemb", "McRembThorough")), ("mc", "Mc", "McWireRemb"), ("drive", "rembrand", n(t, 300, 20000)), ("drive", "sweeps14", n(t, 65537, 1)), ("drive", "amplify", 0)],
+prop("C14", lambda t, s: [("mc", "RembAlg", n(t, "McRemb", "McRembThorough")), ("mc", "Mc", "McWireRemb"), ("mc", "Mc", "McReuseDev"), ("drive", "rembrand", n(t, 300, 20000)), ("drive", "sweeps14", n(t, 65537, 1)), ("drive", "amplify", 0)],
      exhaustive_note="McRemb steps the decoder loop on 53 structured mantissas x 5 exponents and the encoder loop on 128 boundary floats, and emits the complete 2^18 mantissa table at exponent 0 (thorough: at 0, 1, 31, 62, 63) plus the structured rows at 6 (thorough: all 64) exponents; the scaling lemma RowOK extends the exponent-0 table to the other exponents; the encoder is covered by the complete table of the 2^18 integers (thorough: also the 2^17 leading-18-bit values at one exponent) plus Go sweeps of the lemmas EncLemmas over all floats of each range (exhaustive in the thorough tier, every 4097th in the quick tier)")
 
 prop("C15", lambda t, s: [("mc", "XrWalk", n(t, "McXr", "McXrThorough")), ("mc", "Mc", "McWireXr"), ("drive", "xrrand", n(t, 1500, 60000)), ("drive", "bigframes", n(t, 0, 1)), ("drive", "amplify", 0)],
@@ -77,7 +77,7 @@ prop("C16", lambda t, s: [("mc", "UnitsMc", "McUnitsThorough"), ("mc", "Mc", "Mc
 prop("C17", lambda t, s: [("mc", "Mc", "McWire"), ("mc", "Mc", "McWirePairs"), ("mc", "Mc", n(t, "McFaults", "McFaults2")), ("mc", "Mc", "McFaultsDev"), ("drive", "strings", n(t, 1500, 60000)), ("drive", "fuzz", n(t, 600, 30000)), ("drive", "cprand", n(t, 200, 10000))],
      exhaustive_note="String(), %v and %+v are applied to every star-domain value, to every packet any decoder accepted from the first-order faulted buffers, to all 256 values of PacketType, SDESType, BlockTypeType and TTLorHopLimitType, to all 2^16 XR chunks, and to REMB bitrates at every power of two and ten")
 
-prop("C18", lambda t, s: [("mc", "ConcurrencyMc", "McConc"), ("mc_broken", "ConcurrencyMc", "McConcBroken"), ("mc", "Mc", n(t, "McHist", "McHist4")),
+prop("C18", lambda t, s: [("mc", "ConcurrencyMc", "McConc"), ("mc_broken", "ConcurrencyMc", "McConcBroken"), ("mc", "Mc", n(t, "McHist", "McHist4")), ("mc", "Mc", "McReuse"), ("mc", "Mc", "McReuseDev"),
                           ("drive", "histrand", n(t, 600, 30000)), ("conc", n(t, 2, 40)), ("conc", n(t, 2, 40)), ("conc", n(t, 2, 40)), ("drive", "recombine", n(t, 200, 10000)), ("drive", "errpaths", n(t, 400, 20000))],
      exhaustive_note="McConc enumerates every interleaving of 3 goroutines x 2 calls (Begin/End steps) over 2 shared and 2 private packet values; McHist every call history of up to 3 (thorough: 4) calls out of 9 operations on 13 packet values; real schedules are sampled under the race detector",
      assumptions=["the Go race detector reports only the races that occur in the sampled schedules"])
@@ -87,7 +87,7 @@ MIN_BEHAVIOURS = {"McLoose": 80, "McTwcc3": 3500, "McWirePairs": 1100, "McFaults
                   "McDispatchAll": 30000, "McDgram": 600, "McDgram3": 10000, "McCompound": 5000, "McCompound4": 50000, "McNack": 5000,
                   "McNackThorough": 15000, "McTwcc": 7000, "McTwccThorough": 50000, "McRemb": 2100, "McRembThorough": 5000, "McWireRemb": 100,
                   "McXr": 300, "McXrThorough": 4000, "McWireXr": 180, "McUnits": 200, "McUnitsThorough": 1500, "McWireUnits": 250,
-                  "McHist": 5000, "McHist4": 20000}
+                  "McHist": 5000, "McHist4": 20000, "McReuse": 300, "McReuseDev": 50}
 
 # vacuity guard on the trace side: the least number of events of the classes a property's judgement rests on (quick tier numbers
 # are 3 to 5 times these); fewer means a driver or script silently stopped exercising the property -> exit 2
